@@ -1010,6 +1010,19 @@ def build_C17(ctx, tier, rnd):
             for fl in ('upnone', 'uperr', 'u2'):
                 hs.append(('c17q%d' % len(hs), [al.init] + al.seq(['u1', 's', 'ok']) + [q] + al.seq(['q', 'R', 'q', fl, 'q', 'upnone'])))
                 hs.append(('c17q%d' % len(hs), [al.init, q] + al.seq(['s', 'fail', fl, 'q'])))
+                # ... and a failure that is queued ON TOP of a stored queue (four and more unsent events, the newest added by
+                # the library itself): nothing already waiting may be dropped or reordered by the addition
+                if n >= 2:
+                    hs.append(('c17q%d' % len(hs), [al.init] + al.seq(['u1']) + [q] + al.seq(['s', 'fail', 'q', 'R', 'q', fl, 'q', 'upnone'])))
+                    hs.append(('c17q%d' % len(hs), [al.init] + al.seq(['u1']) + [q] + al.seq(['s', 'R', 'q', fl, 'q'])))
+    # long and non-ASCII messages in stored events (a multi-byte character at every offset around 256 bytes): they are re-sent as stored
+    for k in range(4):
+        msg = 'a' * (253 + k) + '\u00e9' * 40
+        for fl in ('upnone', 'u2'):
+            hs.append(('c17long%d%s' % (k, fl), [al.init] + ['op dmg rawsj @c17long%d' % k] + al.seq([fl, 'q', 'upnone'])))
+        ctx.add_blob('c17long%d' % k, __import__('json').dumps({'release_version': REL1, 'queued_events': [
+            {'app_id': APP, 'arch': os.environ.get('UV_ARCH', 'x86_64'), 'type': '__patch_install_failure__', 'patch_number': 2, 'platform': 'linux',
+             'release_version': REL1, 'timestamp': 1700000000, 'message': msg}]}, ensure_ascii=False).encode('utf-8'))
     return hs
 
 
